@@ -80,6 +80,11 @@ def build_case(ch: explore.Chooser, spec: str):
     for size in comp:
         folders.append(data_idx[pos : pos + size])
         pos += size
+    # a folder that holds no file at all (what remains when a member is deleted without repacking): legal, NumUnpackStream = 0
+    where = ch.pick([None, "first", "middle", "last"], "empty-folder")
+    if where is not None and folders:
+        k = {"first": 0, "middle": max(1, len(folders) // 2) if len(folders) > 1 else 1, "last": len(folders)}[where]
+        folders.insert(min(k, len(folders)), [])
     chain = ch.pick(CHAINS, "chain")
     per_folder_alt = ch.choose(2, "second-folder-other-chain") if len(folders) > 1 else 0
     chains_ = [[(c, {}) for c in chain] for _ in folders]
@@ -337,7 +342,7 @@ def main(tier="quick", seed=0, only=None):
             f"logical archives: every ordered list of <= {3 if tier == 'quick' else 4} entries over {{file, zero-length substream, empty file, directory, "
             "symlink}} plus longer interleavings; layouts: default (one solid LZMA2 folder, per-file CRCs, raw header) with EVERY single deviation "
             "for every list, and every PAIR of deviations for the richer lists, over: every composition into folders, 18 coder chains, second "
-            "folder with another chain, NumUnpackStream always written, CRC at substream/folder/none/both, packed CRCs, pack gap 1/7/4096, "
+            "folder with another chain, a file-less folder (NumUnpackStream 0) first / in the middle / last, NumUnpackStream always written, CRC at substream/folder/none/both, packed CRCs, pack gap 1/7/4096, "
             "kDummy 0..7, EmptyFile always, no all-defined shortcut, header raw/LZMA/LZMA2/COPY/AES/LZMA2+AES with/without CRC, reverse coder "
             "order, AES IV 8/16/1 bytes and salt, undefined mtime/attributes/ctime+atime/all per entry, trailing bytes; plus every third-party "
             "fixture. Oracle: names, is_directory/is_symlink, sizes, mtime/ctime/atime, attributes, extractall(factory) bytes and on-disk "
